@@ -22,7 +22,7 @@ func init() { Register(c15{}) }
 func (c15) ID() string    { return "C15" }
 func (c15) Level() string { return "fault_enumeration" }
 func (c15) Rule() string {
-	return "for each value (every zoo shape at small sizes) a fault-free run counts the Write calls W of the encode call; then EVERY k in 1..W x fault kinds {error once, error from k on, short count + io.ErrShortWrite, short count + nil error, error together with a FULL count once / from k on} is injected at the k-th Write through Encoder.WriteTo, Encoder.WriteObject (1st, 2nd and 3rd value of a stream), Serializer.WriteTo and Serializer.Write. Oracle: whenever the fault fired the call must return a non-nil error; when a call returns nil the bytes that reached the writer must equal the fault-free rendering. Non-trivial = W >= 2; distinct by (value hash, entry point, k, fault kind)."
+	return "for each value (every zoo shape at small sizes) a fault-free run counts the Write calls W of the encode call; then EVERY k in 1..W x fault kinds {error once, error from k on, short count + io.ErrShortWrite, short count + nil error, error together with a FULL count once / from k on} is injected at the k-th Write through Encoder.WriteTo, Encoder.WriteObject (1st, 2nd and 3rd value of a stream), Serializer.WriteTo and Serializer.Write, and through ONE used encoder / serializer / pooled serializer per value (history: a 10050-link chain, an unsupported value, a dead writer, a panicking writer; every faulted call is history for the next). The one-call entry points write to a destination that also offers WriteByte / WriteString; every other fault index fails with an error of the retryable kind (Temporary() / Timeout() true). Oracle: whenever the fault fired the call must return a non-nil error; when a call returns nil the bytes that reached the writer must equal the fault-free rendering. Non-trivial = W >= 2; distinct by (value hash, entry point, k, fault kind)."
 }
 func (c15) Exhaustive(tier string) (bool, string) {
 	return true, "every write index k of every generated value (per value, per entry point, per fault kind)"
@@ -91,12 +91,20 @@ func c15call(entry int, val interface{}, nameMap map[string]string, w *mon.Count
 	arm := func() {
 		w.Calls = 0
 		w.Kind, w.K = kind, k
+		// every other fault index fails with an error of the retryable kind (Temporary() / Timeout() true)
+		w.TempErr = (k+entry)%2 == 0
+	}
+	// the one-call entry points get a destination that also has WriteByte / WriteString (bufio.Writer,
+	// bytes.Buffer); the others a plain io.Writer
+	var dst io.Writer = w
+	if entry == 0 || entry == 4 {
+		dst = mon.RichWriter{CountingWriter: w}
 	}
 	switch entry {
 	case 0:
 		e := hessian.NewEncoder(nil, nameMap)
 		arm()
-		return e.WriteTo(w, val)
+		return e.WriteTo(dst, val)
 	case 1, 2, 3:
 		e := hessian.NewEncoder(w, nameMap)
 		for i := 1; i < entry; i++ {
@@ -110,7 +118,7 @@ func c15call(entry int, val interface{}, nameMap map[string]string, w *mon.Count
 	case 4:
 		s := hessian.NewSerializer(nil, nameMap)
 		arm()
-		return s.WriteTo(w, val)
+		return s.WriteTo(dst, val)
 	case 6:
 		arm()
 		return used.enc.WriteTo(w, val)
